@@ -121,6 +121,22 @@ M['lo_buffer_size_128'] = (['C19'], [(LO, "static_cast<size_t>(delim - locale) <
 B['lo_hoisted_lengths'] = [(LO, "    const bool isWellFormed = delim && delim < dotDelim &&\n            static_cast<size_t>(delim - locale) < sizeof(buffer) &&\n            static_cast<size_t>(dotDelim - delim - 1) < sizeof(buffer);",
                             "    const bool ordered = delim && delim < dotDelim;\n    const bool languageFits = ordered && static_cast<size_t>(delim - locale) < sizeof(buffer);\n    const bool countryFits = ordered && static_cast<size_t>(dotDelim - delim - 1) <= sizeof(buffer) - 1;\n    const bool isWellFormed = languageFits && countryFits;")]
 
+# ---------------------------------------------------------------- noise: unrelated additions must not disturb any check ------------------
+B['noise_resource_logging'] = [(RES, "#include <cassert>", "#include <cassert>\n#include <cstdio>"),
+                               (RES, "void Resource::lock(OpType opType) {\n    std::unique_lock lock {m_mutex};\n", "void Resource::lock(OpType opType) {\n    std::unique_lock lock {m_mutex};\n    std::fprintf(stderr, \"lock %d\\n\", static_cast<int>(opType));\n"),
+                               (RES, "    auto op = m_queue.front();\n    m_queue.pop_front();", "    auto op = m_queue.front();\n    m_queue.pop_front();\n    std::fputs(\"select\\n\", stderr);")]
+B['noise_threadpool_logging_and_method'] = [(TP, "#include <chrono>", "#include <chrono>\n#include <cstdio>"),
+                               (TP, "void ThreadPool::stop() {\n", "void ThreadPool::stop() {\n    std::fputs(\"stopping pool\\n\", stderr);\n"),
+                               (TP, "        runnable->run();\n\n        m_pooledThread->setLastActiveTime(time());", "        runnable->run();\n        std::fputs(\"task done\\n\", stderr);\n\n        m_pooledThread->setLastActiveTime(time());"),
+                               (TP, "bool ThreadPool::isRunning() const {", "int ThreadPool::pendingTasks() {\n    std::scoped_lock locker(m_queueMutex);\n    return static_cast<int>(m_queue.size());\n}\n\nbool ThreadPool::isRunning() const {"),
+                               ('include/tulz/threading/ThreadPool.h', "    bool isRunning() const;", "    bool isRunning() const;\n    int pendingTasks();")]
+B['noise_ringbuffer_debug'] = [(RB, "#include <cstring>", "#include <cstring>\n#include <cstdio>"),
+                               (RB, "    T& emplace_back(Args&&... args) {\n        overwriteCheck();\n", "    T& emplace_back(Args&&... args) {\n        overwriteCheck();\n        if (full()) std::fputs(\"overwriting\\n\", stderr);\n"),
+                               (RB, "    bool empty() const {", "    size_t free_slots() const {\n        return m_capacity - m_size;\n    }\n\n    bool empty() const {")]
+B['noise_router_logging'] = [(SRC, "#include <numeric>", "#include <numeric>\n#include <cstdio>"),
+                             (SRC, "void SubjectRouter::Node::shrink(RoutingLevelView levelView) {\n", "void SubjectRouter::Node::shrink(RoutingLevelView levelView) {\n    std::fprintf(stderr, \"shrink %s\\n\", m_name.c_str());\n")]
+B['noise_localeinfo_trace'] = [(LO, "    LocaleInfo::Info result;\n", "    LocaleInfo::Info result;\n    fprintf(stderr, \"LocaleInfo::get(%s)\\n\", locale);\n")]
+
 
 def build(kind, name, edits, tmp):
     for sub in ('include', 'src'):
